@@ -1,5 +1,6 @@
 # configuration of ./check for property C07 (see props_config.py)
 CONFIG = {'gen': ['SmbCommands'],
+ 'drivers': ['Smb'],
  'rule': 'cases = for each of the 114 factory-reachable command structures: valid encodings of generated assignments, every truncation of '
          'each, every position x {00,01,7f,80,fe,ff}, random splices and random bytes -> Unmarshal outcome class (value / error / panic / '
          "timeout) of the real code vs the IR semantics; the specification is 'never panic, never hang'. distinct = distinct line; "
